@@ -597,6 +597,16 @@ def atomic_and_group_arms(run, ctx):
             run.violation(fam, "visit-arms", var, H.where(a[0]), "Expr::%s must compile to %s, found %s" % (var, want, c))
         elif "g" in mm.groupdict() and ("(%s)" % mm.group("g")) not in pc:
             run.violation(fam, "visit-arms", var + "/operand", H.where(a[0]), "Expr::%s must pass its own group number, pattern %s body %s" % (var, pc, c))
+    # Conditional: always lowered by compile_conditional with the incoming context
+    a = arms.get("Conditional")
+    if not a:
+        run.violation(fam, "visit-arms", "anchor-missing/Conditional", H.where(fn), "anchor-missing: no arm for Expr::Conditional")
+    else:
+        c = H.canon(a[0]["body"])
+        HARDP = [p.get("name") for p in fn["params"]][2]
+        n += 1
+        if not H.pat_match("self.compile_conditional(|{c},{i}| {c}.visit(%s.children[{i}],%s))?" % (INFO, HARDP), c):
+            run.violation(fam, "visit-arms", "Conditional", H.where(a[0]), "Expr::Conditional must always be lowered by compile_conditional over children 0,1,2 in the incoming context (a special-cased lowering loses the commit that keeps a failed true-branch from falling back to the false branch), found %s" % c[:200])
     # Any
     for a in arms.get("Any", []):
         pc = H.pat_canon(a["pat"])
